@@ -18,13 +18,10 @@ NOT_APPLICABLE = {
     "C05": "check not built yet in this session (planned, DESIGN.md section 3)",
     "C06": "check not built yet in this session (planned, DESIGN.md section 3)",
     "C07": "check not built yet in this session (planned, DESIGN.md section 3)",
-    "C09": "check not built yet in this session (planned, DESIGN.md section 3)",
-    "C10": "check not built yet in this session (planned, DESIGN.md section 3)",
     "C11": "check not built yet in this session (planned, DESIGN.md section 3)",
     "C12": "check not built yet in this session (planned, DESIGN.md section 3)",
     "C14": "check not built yet in this session (planned, DESIGN.md section 3)",
     "C17": "check not built yet in this session (planned, DESIGN.md section 3)",
-    "C18": "check not built yet in this session (planned, DESIGN.md section 3)",
     "C19": "check not built yet in this session (planned, DESIGN.md section 3)",
     "C20": "check not built yet in this session (planned, DESIGN.md section 3)",
     "C25": "check not built yet in this session (planned, DESIGN.md section 3)",
@@ -50,5 +47,23 @@ CHECK_META = {
         text=("exploration: every filesystem history of up to 3 (thorough: 4) steps and sampled longer ones, each under a seeded interleaving of "
               "the tailer's goroutines; deliveries are compared with a generations model after every step"),
         note="sampling of schedules; premise 'each step observed before the next' is implemented by an observation fixpoint; real kernel filesystem semantics of this sandbox",
+    ),
+    "C09": dict(
+        technique="deterministic simulation: operation-history refinement of the real Metric against an ordered-map model under the simulated clock, emitter goroutine under the seeded scheduler",
+        design_ref="DESIGN.md section 3, C09",
+        text="exploration: seeded operation histories, compared op by op with a reference model through all three read paths (enumeration, lookup, JSON)",
+        note="single client; sampling of histories up to 40 operations over 6 tuples; creation timestamps not compared",
+    ),
+    "C10": dict(
+        technique="deterministic simulation: real Store.Gc and the real GC ticker loop under the bubble's fake clock, boundary-placed timestamps, relational GC model",
+        design_ref="DESIGN.md section 3, C10",
+        text="exploration: seeded stores with timestamps on the expiry boundaries and limits around the size; direct Gc at a known instant and the ticker loop under simulated time",
+        note="sampling; the model leaves tie-breaking among equally old data free, as the statement does",
+    ),
+    "C18": dict(
+        technique="deterministic simulation: real tailer and pattern pollers on a real directory tree under the seeded scheduler; set model of tailed paths checked by log_count and exactly-once probe lines",
+        design_ref="DESIGN.md section 3, C18",
+        text="exploration: seeded pattern sets x filesystem histories x interleavings of racing pattern pollers; membership checked after every step by a probe line per file",
+        note="sampling; root sandbox (no unreadable files); glob semantics taken from path/filepath",
     ),
 }
